@@ -304,9 +304,30 @@ func (s *Sim) Comeback(p *Profile) {
 				stallF = false
 				s.stabilize(4)
 			}
+			// L moves on and compacts: C, which still holds its own version
+			// of these indexes (a later term than L's old entries), will
+			// need a snapshot when it comes back
+			if L.Up && s.isLeader(L) && d.Int(0, 2, "compactL") > 0 {
+				for i, k := 0, d.Int(0, 2, "props4"); i < k && L.Up; i++ {
+					s.Propose(L, s.drawSize(p))
+				}
+				s.stabilize(3)
+				if lo, hi := s.compactRange(L); L.Up && hi > lo {
+					// the snapshot may end before L's entries of the new term
+					i := uint64(d.Int(int(lo+1), int(hi), "snapindex"))
+					s.Compact(L, i, i)
+					s.Stats.inc("macro.flipflop_compacted")
+				}
+			}
 		}
 		if d.Int(0, 2, "heal") > 0 {
 			s.Heal()
+			if L.Up && s.isLeader(L) {
+				for i := 0; i < 2*L.Opts.HeartbeatTick && L.Up; i++ {
+					s.tick(L)
+				}
+				s.stabilize(5)
+			}
 		}
 		return
 	}
